@@ -14,8 +14,11 @@ pub assume_specification<T, E, U, F: FnOnce(T) -> Result<U, E>>[ Result::<T, E>:
 pub fn verif_string_from_utf8(v: Vec<u8>) -> (r: Result<String, Error>) { unimplemented!() }
 
 /// R24: `C::DEFAULT_VALUE.ne(value)`
+pub uninterp spec fn default_ne<C: default::Constraint>(value: C::Owned) -> bool;
 #[verifier::external_body]
-pub fn verif_default_ne<C: default::Constraint>(value: &C::Owned) -> bool { C::DEFAULT_VALUE.ne(value) }
+pub fn verif_default_ne<C: default::Constraint>(value: &C::Owned) -> (r: bool)
+    ensures r == default_ne::<C>(*value)
+{ C::DEFAULT_VALUE.ne(value) }
 
 /// R4: `s.chars().count()` (number of Unicode scalar values; std iterator code)
 pub uninterp spec fn str_char_count(s: &str) -> nat;
@@ -33,4 +36,26 @@ impl numbers::Number for u64 {
     fn to_i64(self) -> (r: i64) { self as i64 }
     #[verifier::external_body]
     fn from_i64(value: i64) -> (r: Self) { value as u64 }
+}
+
+// ===== compositional encoding of SEQUENCE OF / SET OF (X.691 20) =====
+
+/// the encodings of the elements, one after the other
+pub open spec fn enc_all<T: WritableType>(s: Seq<T::Type>) -> Seq<bool>
+    decreases s.len()
+{
+    if s.len() == 0 { Seq::<bool>::empty() } else { enc_all::<T>(s.drop_last()) + T::x_enc(s.last()) }
+}
+pub open spec fn all_ok<T: WritableType>(s: Seq<T::Type>) -> bool {
+    forall|i: int| 0 <= i < s.len() ==> #[trigger] T::x_ok(s[i])
+}
+/// 20.6 / 20.5: the length part of a SEQUENCE OF with n elements
+pub open spec fn seqof_len(min: Option<u64>, max: Option<u64>, ext: bool, n: u64) -> Seq<bool> {
+    let out = n < len_lb(min) || n > (match max { Some(x) => x, None => 0x7fff_ffff_ffff_ffffu64 });
+    (if ext { seq![out] } else { Seq::<bool>::empty() }) + (if out { x691_len_general(n) } else { x691_len(min, max, n) })
+}
+/// described by seqof_len: below the fragmentation threshold (known findings KF-C01-*) and inside the profile
+pub open spec fn seqof_ok(min: Option<u64>, max: Option<u64>, ext: bool, n: u64) -> bool {
+    let out = n < len_lb(min) || n > (match max { Some(x) => x, None => 0x7fff_ffff_ffff_ffffu64 });
+    n < 16384 && (out || octets_in_profile(min, max))
 }
